@@ -43,12 +43,29 @@ func delta(n chain.NetSpec, h uint64) time.Duration {
 	return 2 * n.Interval
 }
 
+// plannedTimes: irregular AND non-monotone timestamps: a steadily growing base plus a far-future spike at heights 4 and
+// 9 (a block only has to be at or after the median of its ancestors, so the following blocks may go back in time).
 func plannedTimes(n chain.NetSpec, upto uint64) []time.Time {
-	ts := []time.Time{chain.GenesisTime}
+	base := []time.Time{chain.GenesisTime}
 	for h := uint64(1); h <= upto; h++ {
-		ts = append(ts, ts[h-1].Add(delta(n, h)))
+		base = append(base, base[h-1].Add(delta(n, h)))
+	}
+	ts := make([]time.Time, len(base))
+	for h := range base {
+		ts[h] = base[h]
+		if h == 4 || h == 9 {
+			ts[h] = base[h].Add(10 * n.Interval)
+		}
+		if h == 6 {
+			ts[h] = base[h-2].Add(time.Second) // earlier than its parent, still above the median
+		}
 	}
 	return ts
+}
+
+func plannedTime(n chain.NetSpec, h uint64) *time.Time {
+	t := plannedTimes(n, h)[h]
+	return &t
 }
 
 // refMedian is the median of the last min(h,11) timestamps of the chain whose tip has height h-1 (i.e. the parent state of child h).
@@ -136,7 +153,7 @@ func (r *runner) base() *chain.World {
 
 // mine applies one block with the given uses (nil = empty) using the planned timestamp.
 func (r *runner) mine(w *chain.World, uses ...chain.Use) bool {
-	b, bs := w.BlockOfUsesOpts(chain.BlockOpts{TimeDelta: delta(r.spec, w.ChildHeight())}, uses...)
+	b, bs := w.BlockOfUsesOpts(chain.BlockOpts{AbsTime: plannedTime(r.spec, w.ChildHeight())}, uses...)
 	err, p := w.Apply(b, bs)
 	if p != nil {
 		r.c.Violate("C08|"+p.Sig, p.Desc, probeCase{Net: r.spec, Rule: "history", Height: w.ChildHeight(), Seed: r.c.Seed})
@@ -152,7 +169,7 @@ func (r *runner) mine(w *chain.World, uses ...chain.Use) bool {
 // probe submits a block containing only u at the current child height and compares the verdict.
 func (r *runner) probe(w *chain.World, rule string, created uint64, bound int64, u chain.Use, want bool) {
 	h := w.ChildHeight()
-	b, bs := w.BlockOfUsesOpts(chain.BlockOpts{TimeDelta: delta(r.spec, h)}, u)
+	b, bs := w.BlockOfUsesOpts(chain.BlockOpts{AbsTime: plannedTime(r.spec, h)}, u)
 	var err error
 	pv, _ := vf.Try(func() { err = w.Validate(b, bs) })
 	r.c.Count("evaluations", 1)
@@ -341,7 +358,7 @@ func (r *runner) maturity() {
 			}
 		}
 		addr := k.Addr([]int{chain.AddrV1, chain.AddrV2}[h%2])
-		b, bs := w.BuildBlock(bc.V1, bc.V2, chain.BlockOpts{TimeDelta: delta(r.spec, h), MinerAddr: &addr})
+		b, bs := w.BuildBlock(bc.V1, bc.V2, chain.BlockOpts{AbsTime: plannedTime(r.spec, h), MinerAddr: &addr})
 		if err, p := w.Apply(b, bs); err != nil || p != nil {
 			r.c.Violate("C08|honest-rejected|maturity-history", fmt.Sprintf("history block rejected at %d: %v %v", h, err, p), probeCase{Net: r.spec, Rule: "history", Height: h, Seed: r.c.Seed})
 			return
